@@ -24,6 +24,15 @@ PROPS = {
             "handle table per actor); it is observed on traces through the actor id carried by every reply",
         ],
     },
+    "C03": {
+        "modules": ["Hannibal.Props.C03"],
+        "theorems": ["Hannibal.C03_holds", "Hannibal.C03_current"],
+        "cases": {"quick": {"C03": 1500}, "thorough": {"C03": 20000, "C13": 3000, "C07": 3000}},
+        "assumptions": COMMON_ASSUMPTIONS + [
+            "graceful-end clause (monC03q: after an accepted stop and absent failures the actor has ended with "
+            "stopped() by quiescence) is judged on real traces only",
+        ],
+    },
     "C12": {
         "modules": ["Hannibal.Props.C12"],
         "theorems": ["Hannibal.C12_holds", "Hannibal.C12_current", "Hannibal.C12_state",
